@@ -20,11 +20,11 @@ from vlib.pipeline import Case
 from vlib import gen
 
 PID = "C12"
-GEN = ["qsshift"]
+GEN = ["qsshift", "siqssel"]
 LEAN = ["Ymq.Props.C12"]
 AUDIT = "Ymq.Audit.C12"
 THEOREMS = ["Ymq.C12." + t for t in (
-    "siqs_identity siqs_identity_model eval_eq_polyVal siqs_B_sq walk_B_sq min_trick gray_step roots_inv roots_walk poly_exact poly_exact_domain siqs_walk_total stale_c_check_witness size_assert_fails_470 roots_exact roots_exact_unit hensel_lift mpqs_identity prepare_prime_exact qs_roots_exact lgblock_shift").split()]
+    "siqs_identity siqs_identity_model eval_eq_polyVal siqs_B_sq walk_B_sq min_trick gray_step roots_inv roots_walk poly_exact poly_exact_domain siqs_walk_total stale_c_check_witness size_assert_fails_470 roots_exact roots_exact_unit select_window_assert select_a_sound siqs_select_walk_total select_a_never_returns select_a_hang_witness select_assert_fires_witness siqs_params_in_domain hensel_lift mpqs_identity prepare_prime_exact qs_roots_exact lgblock_shift").split()]
 HYPOTHESES = []
 PROFILES = ["release", "chk"]
 TIMEOUT = 60.0
